@@ -88,6 +88,11 @@ var valueKinds = []valueKind{
 		Final: `return Object(x.n, x.c.Size())`, Children: `return Object(x.c)`},
 	{Name: "instance", Make: `i = new s.cls; i.N = 0; i.C = Object(); return i`, Mutate: `++x.N; x.C.Add(i)`,
 		Final: `return Object(x.N, x.C.Size())`, Children: `return Object(x.C)`},
+	// a record that comes from the database (row backed, lazily unpacked; made in Go, see runEnter);
+	// reads of not yet cached and of missing field names through it and through private copies
+	{Name: "dbrecord", Make: `x = s.dbnew; x.c = Object(); return x`,
+		Mutate: `++x.n; x.c.Add(i); if x['m' $ i] isnt '' or x.s isnt 'i_d' { throw 'wrong value read from the record' }; c = x.Copy(); if c['q' $ i] isnt '' or c.s isnt 'i_d' or c.t isnt 'i_t' { throw 'wrong value read from the private copy' }`,
+		Final: `return Object(x.n, x.c.Size())`, Children: `return Object(x.c)`},
 	{Name: "closure", Make: `n = 0; c = Object(); return {|q| if q is 1 { n++; c.Add(1) }; q is 2 ? c : Object(n, c.Size()) }`,
 		Mutate: `x(1)`, Final: `return x(0)`, Children: `return Object(x(2))`},
 }
@@ -162,6 +167,26 @@ func runEnter(c enterCase) (msg string) {
 	if m := catchGo(func() {
 		world = main.Call(compile.Constant(c43Setup(c43Case{NInit: 3})))
 		world.SetConcurrent() // the container is shared from here on
+		if vk.Name == "dbrecord" {
+			// thread-private carrier for the fresh row-backed record (n: 0, s: 'i_d', t: 'i_t')
+			b := core.RecordBuilder{}
+			b.Add(core.SuInt(0))
+			b.Add(core.SuStr("i_d"))
+			b.Add(core.SuStr("i_t"))
+			flds := []string{"n", "s", "t"}
+			fresh := core.SuRecordFromRow(core.Row{core.DbRec{Record: b.Build()}}, core.NewHeader([][]string{flds}, flds), "", nil)
+			carrier := &core.SuObject{}
+			carrier.Set(core.SuStr("dbnew"), fresh)
+			carrier.Set(core.SuStr("cls"), world.(*core.SuObject).Get(main, core.SuStr("cls")))
+			v := main.Call(suFn("s", vk.Make), carrier)
+			if core.IsConcurrent(v) == core.True {
+				panic("harness: fresh value is already concurrent")
+			}
+			main.Call(suFn("s, v", ep.Enter), world, v)
+			g = main.Call(suFn("s", ep.Get), world)
+			kids = main.Call(suFn("x", vk.Children), g).(*core.SuObject)
+			return
+		}
 		v := main.Call(suFn("s", vk.Make), world)
 		if core.IsConcurrent(v) == core.True {
 			panic("harness: fresh value is already concurrent")
